@@ -109,7 +109,10 @@ Definition expected_location (t : target) (wire : str) (q : request) : str :=
 Definition region_adjacent_raw (t : target) (q : request) : bool :=
   adjacent t && negb (is_nil (q_rawpath q)).
 
-(* ---- the host loop: reference ---- *)
+(* ---- the host loop: reference ----
+   "A redirect that would point back at the request's own scheme, host and path is skipped in
+   favour of the next matching host": the request's own scheme is the one a proxy in front
+   reports (X-Forwarded-Proto), otherwise that of the connection; whatever headers were sent *)
 Definition own_scheme (q : request) : str :=
   if negb (is_nil (q_xfp q)) then q_xfp q
   else if q_tls q then [104;116;116;112;115] else [104;116;116;112].
@@ -137,11 +140,6 @@ Definition ref_response (q : request) (cands : list (option target)) : response 
 Definition somes {A} (l : list (option A)) : list A :=
   flat_map (fun o => match o with Some a => [a] | None => [] end) l.
 
-(* finding region 3: the request carries no X-Forwarded-Proto header and some candidate
-   redirect points back at it (its scheme is known from the listener only) *)
-Definition region_no_xfp (q : request) (cands : list (option target)) : bool :=
-  is_nil (q_xfp q)
-  && existsb (fun t => negb (t_code t =? 0)%Z && points_back (build_redirect_url t q) q) (somes cands).
 (* an option text on which strconv.Atoi reports a range error (the repaired finding F-C13-5) *)
 Definition code_overflows (opt : str) : bool :=
   let '(v, ok) := atoi opt in negb ok && negb (v =? 0)%Z.
